@@ -601,6 +601,20 @@ func (f *Flow) transferRetChoice(in ssa.Instruction, c *ssa.CallCommon, ret *ssa
 				oa := *okAtom
 				oa.Site = site
 				nf.Add(&oa)
+				// the site returns another function's verdict: on this (successful) outcome that verdict was positive
+				if sm.resIdx < len(ret.Results) {
+					if rt := gc.Term(ret.Results[sm.resIdx]); rt.Op == "call" && !isErrCtor(rt) && wrappedErr(rt) == nil {
+						var da *Atom
+						if sm.resKind == "error" {
+							da = ErrNil(rt)
+						} else {
+							da = Truth(rt)
+						}
+						da.Site = site
+						nf.Add(da)
+						gfl.addDerived(nf, da)
+					}
+				}
 			}
 			nf.Add(&Atom{Pred: "done", Args: []*Term{callTerm}, Site: f.A.P.InstrPos(in)})
 		}
